@@ -73,7 +73,7 @@ def run(tier):
     cov['rule'] = ('every transition of the Container model reachable within MaxHist operations (BFS over distinct abstract states, VIEW hides the '
                    'witness history): assign of 7 literal kinds (incl. short/long string, empty object/array), copy/move assignment and construction, '
                    'swap, insert_or_assign, try_emplace, erase(key), merge, merge_or_update, push_back, insert(pos), operator[]=, erase(pos), '
-                   'erase(range), resize, clear, reserve over NSlots slots and 3 keys, incl. self-assignment/self-swap/self-insertion; after each '
+                   'erase(range), resize, clear, reserve over NSlots slots and 3 keys, incl. self-assignment/self-swap/self-insertion; the hinted overloads of insert_or_assign / try_emplace / merge / merge_or_update are replayed with the hint at every position; after each '
                    'history: projection of every slot, lookups (contains/find/count/at/[]/size/empty), copy equality; json and ojson; one case = one edge; '
                    '(b) all ordered pairs of 54 value descriptors (every storage kind x boundary values, tags, json_ref wrappers) and all '
                    '(descriptor, integer type) conversions, laws of spec/ValueLaws.tla validated on the recorded outcomes')
